@@ -99,6 +99,37 @@ class ModuleInfo:
                 self._scan(item.orelse)
 
 
+def first_store_order(fn):
+    """local variable names of a function in the order of their first assignment in the source (parameters and the
+    names of nested functions' own locals excluded)"""
+    params = {a.arg for a in ast.walk(fn.args) if isinstance(a, ast.arg)}
+    seen, out = set(), []
+    stores = [n for n in ast.walk(fn) if isinstance(n, ast.Name) and isinstance(n.ctx, ast.Store)]
+    stores += [ast.Name(id=h.name, ctx=ast.Store(), lineno=h.lineno, col_offset=h.col_offset) for h in ast.walk(fn)
+               if isinstance(h, ast.ExceptHandler) and h.name]
+    for n in sorted(stores, key=lambda n: (n.lineno, n.col_offset)):
+        if n.id not in seen and n.id not in params:
+            seen.add(n.id)
+            out.append(n.id)
+    return out
+
+
+class _Alpha(ast.NodeTransformer):
+    def __init__(self, mapping):
+        self.mapping = mapping
+
+    def visit_Name(self, n):
+        if n.id in self.mapping:
+            n.id = self.mapping[n.id]
+        return n
+
+    def visit_ExceptHandler(self, n):
+        if n.name in self.mapping:
+            n.name = self.mapping[n.name]
+        self.generic_visit(n)
+        return n
+
+
 class Repo:
     def __init__(self, root=None):
         self.root = root or REPO_ROOT
@@ -108,6 +139,42 @@ class Repo:
             if fn.endswith('.py'):
                 mod = PKG if fn == '__init__.py' else f'{PKG}.{fn[:-3]}'
                 self.modules[mod] = ModuleInfo(mod, os.path.join(pkgdir, fn))
+        self.alpha_renamed = {}
+        self._alpha_normalize()
+
+    def _alpha_normalize(self):
+        """Sidecar contracts name local variables.  contracts/bindings.json records, per function, the locals in the
+        order of their first assignment as they were when the contracts were written.  If a function now has the same
+        number of locals, all recorded names that disappeared sit at positions where a new name appeared, the function
+        was alpha-renamed: the AST is renamed back (in memory only) so that the contracts still attach.  Anything else
+        (different number of locals, a recorded name still present elsewhere) is left alone."""
+        import json
+        p = os.path.join(os.path.dirname(os.path.dirname(os.path.abspath(__file__))), 'contracts', 'bindings.json')
+        if not os.path.exists(p):
+            return
+        rec = json.load(open(p))
+        for q, old in rec.items():
+            fi = self.func(q)
+            if fi is None:
+                continue
+            cur = first_store_order(fi.node)
+            if cur == old or len(cur) != len(old):
+                continue
+            mapping = {}
+            okm = True
+            all_names = {n.id for n in ast.walk(fi.node) if isinstance(n, ast.Name)} | {a.arg for a in ast.walk(fi.node) if isinstance(a, ast.arg)}
+            for a, b in zip(old, cur):
+                if a != b and a in all_names:
+                    okm = False          # the old name is still used somewhere: not a consistent rename
+                    break
+                if a != b:
+                    if a in cur or b in old:
+                        okm = False      # not a pure rename (names moved around)
+                        break
+                    mapping[b] = a
+            if okm and mapping:
+                _Alpha(mapping).visit(fi.node)
+                self.alpha_renamed[q] = mapping
 
     def func(self, qualname):
         """'s3transfer.utils:ReadFileChunk.read' -> FuncInfo or None."""
